@@ -40,7 +40,7 @@ class TaggedUGrammar(UGrammar[U, V, W], Generic[T, U, V, W]):
         return self.grammar.programs()
 
     def __hash__(self) -> int:
-        return hash((str(self.start_tags), self.grammar, str(self.tags)))
+        return hash(self.grammar)
 
     def __eq__(self, o: object) -> bool:
         return (
